@@ -162,11 +162,11 @@ func showDB(db shared.DBNodeMap) string {
 		keys = append(keys, k)
 	}
 	sort.Strings(keys)
-	lines := []string{"ok"}
+	lines := []string{}
 	for _, k := range keys {
 		lines = append(lines, hx(k)+" "+showElements(db[k].Elements))
 	}
-	return strings.Join(lines, "\n")
+	return "ok\n" + strings.Join(lines, "\n")
 }
 
 // resolve with both public entry points, `repeat` times each on freshly built
